@@ -374,9 +374,18 @@ func (w *world) reload(name string) error {
 // observations
 
 // ancestors returns the model's ancestor closure of name (depth-first,
-// parents before self as DoAncestors does); ok=false if a loop or an
-// unspecified parent set is met.
+// parents before self as DoAncestors does); ok=false if a loop, an
+// unspecified parent set or a location reached twice (a diamond) is met.
 func (w *world) ancestors(name string) (order []string, ok bool) {
+	return w.ancestorsFor(name, func(*mLoc) bool { return true })
+}
+
+// ancestorsFor is ancestors with a finer treatment of diamonds: whether the
+// facts and rules of a location reached through two parents count once or
+// twice is not specified, so the closure is unspecified (ok=false) only if
+// such a location contributes anything to the observation at hand
+// (contributes(ml)); otherwise it is listed once.
+func (w *world) ancestorsFor(name string, contributes func(*mLoc) bool) (order []string, ok bool) {
 	seen := map[string]bool{}
 	var visit func(n string, stack map[string]bool) bool
 	visit = func(n string, stack map[string]bool) bool {
@@ -399,9 +408,12 @@ func (w *world) ancestors(name string) (order []string, ok bool) {
 		}
 		delete(stack, n)
 		if seen[n] {
-			// reached twice (a diamond): whether its facts and rules
-			// count once or twice is not specified
-			return false
+			// reached twice (a diamond)
+			if contributes(ml) {
+				return false
+			}
+			w.o.Label("diamond-without-contribution")
+			return true
 		}
 		seen[n] = true
 		order = append(order, n)
@@ -518,7 +530,7 @@ func (w *world) checkSearch(name string, pattern M, inherited bool, when string)
 		}
 		if inherited {
 			if _, ok := w.ancestors(name); !ok {
-				return sc // loops/unspecified parents: an error is fine
+				return sc // loops/unspecified parents/diamonds: an error is fine
 			}
 		}
 		w.o.Fail("SEARCH_ERROR", "%s: %s SearchFacts(%s) failed: %v", when, name, vlib.JSON(pattern), err)
@@ -526,7 +538,7 @@ func (w *world) checkSearch(name string, pattern M, inherited bool, when string)
 	}
 	locs := []string{name}
 	if inherited {
-		order, ok := w.ancestors(name)
+		order, ok := w.ancestorsFor(name, func(ml *mLoc) bool { return len(ml.search(pattern)) > 0 || len(ml.Unspec) > 0 })
 		if !ok {
 			return sc
 		}
@@ -678,7 +690,7 @@ var specials = []string{"?event", "?location", "?ruleId"}
 // bindings with the model.
 func (w *world) checkEvent(name string, event M, when string) eventCmp {
 	var ec eventCmp
-	order, ok := w.ancestors(name)
+	order, ok := w.ancestorsFor(name, func(ml *mLoc) bool { return len(ml.dispatch(event)) > 0 || len(ml.Unspec) > 0 })
 	ectx := w.eventCtx
 	if ectx == nil {
 		ectx = newCtx()
@@ -834,7 +846,14 @@ func (w *world) whenJSON(locs []string, id string) string {
 func (w *world) checkListRules(name string, inherited bool, when string) {
 	locs := []string{name}
 	if inherited {
-		order, ok := w.ancestors(name)
+		order, ok := w.ancestorsFor(name, func(ml *mLoc) bool {
+			for _, it := range ml.Items {
+				if it.IsRule {
+					return true
+				}
+			}
+			return len(ml.Unspec) > 0
+		})
 		if !ok {
 			return
 		}
